@@ -431,6 +431,10 @@ def curated():
     A(('arr', string, 3)); A(('arr', P('double'), 1)); A(('carr', string, 3)); A(('arr', ('pair', u8, string), 3))
     A(('vec', ('vec', ('vec', i32))))
     A(('vec', ('arr', u16, 3)))
+    # a plain char array on its own (not to be mistaken for a C string) and logical buffers whose capacity is the
+    # largest count their size member can express
+    A(('carr', P('char'), 4)); A(('carr', P('char'), 1))
+    A(p.lbuf(u8, 255, 'std::uint8_t', storage='carr', name='LbFullU8')); A(p.lbuf(u16, 127, 'std::int8_t', storage='arr', name='LbFullI8'))
     # arrays of enums (ARY of variable-width integers), a structure with more members than a fixint can count
     A(('arr', ('enum', 'EnU32'), 3)); A(('carr', ('enum', 'EnI16'), 4)); A(('arr', ('enum', 'EnI64'), 2))
     A(p.struct([('m%d' % i, u8 if i % 7 else u16) for i in range(130)], name='StWide130'))
